@@ -118,6 +118,8 @@ def gen_intr(rng, names):
             continue
         if small_expansion(tygen.to_op(dnode)):
             attr.append(tygen.type_text(dnode))
+    if probes and rng.random() < 0.3:
+        probes = sorted(rng.sample(probes, rng.randrange(1, len(probes) + 1)))
     case = {"kind": "intr", "type": t, "probes": probes, "attrs": sorted(set(attr))}
     if rng.random() < 0.4 and not union:
         # a service: the response section is a second schema of the same definition (same field counts are likely)
@@ -128,6 +130,16 @@ def gen_intr(rng, names):
         for p in range(len(r["fs"]) + 1):
             if small_expansion(tygen.to_op(dict(r, fs=r["fs"][:p]))["c"]):
                 rp.append(p)
+        # histories matter: sometimes evaluate `_offset_` only once per section, at the same field count in both
+        if rng.random() < 0.6 and probes and rp:
+            common = [p for p in probes if p in rp]
+            if common:
+                p0 = rng.choice(common)
+                case["probes"] = [p0]
+                rp = [p0]
+            else:
+                case["probes"] = [rng.choice(probes)]
+                rp = [rng.choice(rp)]
         case["resp"] = r
         case["resp_probes"] = rp
     return case
